@@ -163,6 +163,24 @@ Theorem C20_move_transfers : forall stateless n s w v, inv s -> (w < n)%nat -> (
 Proof. exact move_transfers. Qed.
 Print Assumptions C20_move_transfers.
 
+(* the converting constructors inplace_function(inplace_function<Sig, Cap, Align> const& / &&) (through the private
+   vtable / process / storage constructor), with a PERSISTENT source wrapper of another capacity, as constructor and as the
+   by-value parameter of operator=: copy duplicates, move transfers and empties the source *)
+Theorem C20_converting_copy_duplicates : forall stateless n s w v, inv s -> (w < n)%nat -> (v < n)%nat -> w <> v ->
+  forall o, o = OConvCopyCtorW w v \/ o = OConvCopyAssign w v ->
+  exists s', step_m stateless n s o = Good (s', TAck) /\ inv s' /\
+             abs_slot s' w = abs_slot s v /\ abs_slot s' v = abs_slot s v /\
+             (forall i, i <> w -> abs_slot s' i = abs_slot s i).
+Proof. exact conv_copy_duplicates. Qed.
+Print Assumptions C20_converting_copy_duplicates.
+Theorem C20_converting_move_transfers : forall stateless n s w v, inv s -> (w < n)%nat -> (v < n)%nat -> w <> v ->
+  forall o, o = OConvMoveCtorW w v \/ o = OConvMoveAssign w v ->
+  exists s', step_m stateless n s o = Good (s', TAck) /\ inv s' /\
+             abs_slot s' w = abs_slot s v /\ abs_slot s' v = None /\
+             (forall i, i <> w -> i <> v -> abs_slot s' i = abs_slot s i).
+Proof. exact conv_move_transfers. Qed.
+Print Assumptions C20_converting_move_transfers.
+
 Theorem C20_swap_exchanges : forall stateless n s w v, inv s -> (w < n)%nat -> (v < n)%nat ->
   exists s', step_m stateless n s (OSwap w v) = Good (s', TAck) /\ inv s' /\
              abs_slot s' w = abs_slot s v /\ abs_slot s' v = abs_slot s w /\
@@ -227,6 +245,11 @@ Print Assumptions C20_inplace_function_call_table.
 Theorem C20_function_ref_call_table : forall fc P a, is_cat fc -> is_cat a -> fref_call_m fc P a = fref_call_spec fc P a.
 Proof. exact fref_call_agrees. Qed.
 Print Assumptions C20_function_ref_call_table.
+(* which callables a function_ref can be constructed from (after the fix of the constraint): exactly those that can be called
+   as an lvalue, as P0792 says -- 6 qualifiers of operator() x 4 argument categories *)
+Theorem C20_function_ref_constructible_table : forall q a, fref_ctor_wf_m q a = fref_ctor_wf_spec q a.
+Proof. exact fref_ctor_wf_agrees. Qed.
+Print Assumptions C20_function_ref_constructible_table.
 Theorem C20_reference_wrapper_call_table : forall k a, is_cat a -> refwrap_call_m k a = refwrap_call_spec k a.
 Proof. exact refwrap_call_agrees. Qed.
 Print Assumptions C20_reference_wrapper_call_table.
@@ -247,7 +270,9 @@ Print Assumptions C20_make_from_tuple_categories.
 Theorem C20_apply_pair_categories : forall tc kinds, is_cat tc -> apply_pair_cats_m tc kinds = get_all_spec tc kinds.
 Proof. exact apply_pair_cats_agrees. Qed.
 Print Assumptions C20_apply_pair_categories.
-Theorem C20_pair_assign_table : forall dk sk sc, assignable_kind dk -> assignable_kind sk -> is_cat sc ->
+(* every destination / source member kind (incl. const and reference source members of the converting overloads) and every
+   category of the source pair; which combinations are well-formed at all is the constraint matrix below *)
+Theorem C20_pair_assign_table : forall dk sk sc, is_cat sc ->
   pair_assign_m dk sk sc = pair_assign_spec dk sk sc.
 Proof. exact pair_assign_agrees. Qed.
 Print Assumptions C20_pair_assign_table.
@@ -282,6 +307,13 @@ Print Assumptions C20_pair_construct_assign_matrix.
 Theorem C20_pair_swappable : forall a b, a <> ECopyOnly -> b <> ECopyOnly -> pair_swappable_m a b = pair_swappable_spec a b.
 Proof. exact pair_swappable_agrees. Qed.
 Print Assumptions C20_pair_swappable.
+(* is_swappable_v<tuple<Ts...>> (after the fix that added the constrained non-member swap) and what it does to reference elements *)
+Theorem C20_tuple_swappable : forall es, ~ In ECopyOnly es -> tuple_swappable_m es = tuple_swappable_spec es.
+Proof. exact tuple_swappable_agrees. Qed.
+Print Assumptions C20_tuple_swappable.
+Theorem C20_tuple_swap_reference_elements : forall a b c d, tuple_swap_refs_m a b c d = tuple_swap_refs_spec a b c d.
+Proof. exact tuple_swap_refs_agrees. Qed.
+Print Assumptions C20_tuple_swap_reference_elements.
 Theorem C20_tuple_construct_matrix : forall es : list elem, tuple_traits_m es = tuple_traits_spec es.
 Proof. exact tuple_traits_agree. Qed.
 Print Assumptions C20_tuple_construct_matrix.
@@ -320,18 +352,25 @@ Example C20_nonvacuous_ipf :
   inv init_state /\ rel init_state init_astate
   /\ (exists s' obs, run_m [] [] 2 init_state [OAssignTarget 0 7; OCopyAssign 1 0; OCall 1 5; OSwap 0 0; OMoveAssign 0 1; OCall 1 6; OCall 0 9]
                        = Good (s', obs)
-                     /\ map (fun o => fst (fst o)) obs = [TAck; TAck; TCall 7001005; TAck; TAck; TEmpty; TCall 7002009]).
+                     /\ map (fun o => fst (fst o)) obs = [TAck; TAck; TCall 7001005; TAck; TAck; TEmpty; TCall 7002009])
+  /\ (exists s' obs, run_m [] [] 2 init_state [OAssignTarget 1 7; OConvCopyCtorW 0 1; OCall 1 5; OCall 0 5; OConvMoveAssign 0 1; OCall 1 6; OCall 0 9;
+                                                OConvMoveCtorW 0 0]
+                       = Good (s', obs)
+                     /\ map (fun o => fst (fst o)) obs = [TAck; TAck; TCall 7001005; TCall 7001005; TAck; TEmpty; TCall 7002009; TSkip]).
 Proof.
-  split; [exact init_inv|]. split; [exact init_rel|]. eexists. eexists. split; vm_compute; reflexivity.
+  split; [exact init_inv|]. split; [exact init_rel|]. split; eexists; eexists; split; vm_compute; reflexivity.
 Qed.
 
 Example C20_nonvacuous_cat :
-  is_cat LV /\ wf_recv (RcvObj RV) /\ assignable_kind (mkty false RL)
+  is_cat LV /\ wf_recv (RcvObj RV)
   /\ (tuple_get_m RV (mkty false RL) = Some LV /\ tuple_get_m CLV (mkty false RL) = Some LV
       /\ tuple_cat_t_m [(LV, [(mkty false RNone, 1)]); (RV, [(mkty false RNone, 2); (mkty false RL, 3)])]
          = Some [(1, Constructed false); (2, Constructed true); (3, Aliased)]
-      /\ tuple_cat_t_m [(LV, [(mkty false RR, 1)])] = None).
+      /\ tuple_cat_t_m [(LV, [(mkty false RR, 1)])] = None
+      /\ pair_assign_m (mkty false RNone) (mkty false RNone) RV = Some true
+      /\ pair_assign_m (mkty false RNone) (mkty true RNone) RV = Some false
+      /\ pair_assign_m (mkty false RNone) (mkty false RNone) CRV = Some false).
 Proof.
-  split; [reflexivity|]. split; [reflexivity|]. split; [split; [reflexivity|discriminate]|].
+  split; [reflexivity|]. split; [reflexivity|].
   vm_compute. repeat split; reflexivity.
 Qed.
